@@ -343,6 +343,23 @@ func cmdLex(args []string) error {
 			}
 		}
 	}
+	// ... and the white space that ends a time: any Unicode white space between two tokens, not only a blank
+	{
+		tm := "2006-01-02T15:04:05Z"
+		seps := []string{"\t", "\r", "\f", "\v", "\u0085", "\u00a0", "\u2003", "\u3000", " \t ", "\r\n"}
+		for _, ps := range [][]string{
+			{"select", "?s", "from", "?g", "where", "{", "?s", "?p", "?o", "}", "having", "?x", "<", tm, "and", "?x", ">", tm, "limit", "\"1\"^^type:int64", ";"},
+			{"select", "?s", "from", "?g", "where", "{", "?s", "?p", "?o", "}", "having", "(", "?x", "=", "1", ")", "or", "?x", "<", "2", ";"},
+			{"select", "?s", "from", "?g", "where", "{", "?s", "?p", "?o", "}", "before", tm, ";"},
+			{"select", "?s", "from", "?g", "where", "{", "?s", "?p", "?o", "}", "between", tm, ",", tm, "limit", "\"1\"^^type:int64", ";"},
+		} {
+			base := joinParts(ps, func(int) string { return " " })
+			for _, sp := range seps {
+				g.meta("ws", base, joinParts(ps, func(int) string { return sp }), sameKindsTrimmedTexts)
+			}
+			g.meta("ws", base, joinParts(ps, func(int) string { return seps[r.intn(len(seps))] }), sameKindsTrimmedTexts)
+		}
+	}
 	// literal type names in any case
 	for _, ty := range []string{"bool", "int64", "float64", "text", "blob"} {
 		a := `"1"^^type:` + ty
